@@ -56,6 +56,7 @@ class Contribution:
     node: ast.AST | None = None  # event / comprehension / literal
     kind: str = "add"  # add | remove
     how: str = ""  # append, add, comp, subscript-store, subscript-load (d[k].append), setdefault, literal, root, ...
+    acc: str = ""  # accumulator the event changes (events only)
     nlocal: int = -1  # how many of the (trailing) conds guard the event itself; the leading ones filter composed sources
 
     def __post_init__(self) -> None:
@@ -109,6 +110,29 @@ def _is_empty_value(v: ast.AST) -> bool:
 
 def _call_name(c: ast.Call) -> str:
     return c.func.id if isinstance(c.func, ast.Name) else ""
+
+
+def flatten(conds: list) -> list[tuple[ast.AST, bool]]:
+    """Conjunction of conditions as a list of literals: `a and b` / `not (a or b)` / `not x` / `bool(x)` are taken apart."""
+    out: list[tuple[ast.AST, bool]] = []
+    work = list(conds)
+    while work:
+        e, pol = work.pop(0)
+        if isinstance(e, ast.UnaryOp) and isinstance(e.op, ast.Not):
+            work.insert(0, (e.operand, not pol))
+        elif isinstance(e, ast.BoolOp) and ((isinstance(e.op, ast.And) and pol) or (isinstance(e.op, ast.Or) and not pol)):
+            work = [(v, pol) for v in e.values] + work
+        elif isinstance(e, ast.Call) and isinstance(e.func, ast.Name) and e.func.id == "bool" and len(e.args) == 1:
+            work.insert(0, (e.args[0], pol))
+        elif isinstance(e, ast.Compare) and len(e.ops) == 1 and isinstance(e.ops[0], (ast.IsNot, ast.NotIn, ast.NotEq)):
+            op = {ast.IsNot: ast.Is, ast.NotIn: ast.In, ast.NotEq: ast.Eq}[type(e.ops[0])]()
+            ne = ast.Compare(left=e.left, ops=[op], comparators=e.comparators)
+            out.append((ne, not pol))
+        elif isinstance(e, ast.Constant) and bool(e.value) is pol:
+            continue
+        else:
+            out.append((e, pol))
+    return out
 
 
 class Collections:
@@ -196,6 +220,8 @@ class Collections:
                             p = parent(n)
                             if not (isinstance(p, ast.Attribute) and isinstance(parent(p), ast.Call)):
                                 add(recv.id, ("add", "setdefault", n, n.args[0], n.args[1] if len(n.args) > 1 else ast.Constant(value=None), []))
+                        elif m == "difference_update" and n.args:
+                            add(recv.id, ("removemany", m, n, n.args[0], None, []))
                         elif m in REMOVE:
                             add(recv.id, ("remove", m, n, n.args[0] if n.args else None, None, []))
                     elif isinstance(recv, ast.Subscript) and isinstance(recv.value, ast.Name) and (m in ADD_ONE or m in ADD_MANY):
@@ -215,6 +241,8 @@ class Collections:
                 if isinstance(t, ast.Name):
                     if isinstance(n.op, (ast.Add, ast.BitOr)):
                         add(t.id, ("addmany", "augassign", n, n.value, None, []))
+                    elif isinstance(n.op, ast.Sub):
+                        add(t.id, ("removemany", "augassign", n, n.value, None, []))
                     else:
                         add(t.id, ("remove", "augassign", n, n.value, None, []))
                 elif isinstance(t, ast.Subscript) and isinstance(t.value, ast.Name):
@@ -272,13 +300,20 @@ class Collections:
             local = local + list(extra)
             local = self.xc(local)
             if kind == "remove":
-                out.removals.append(Contribution(elt=self.x(key), binders=binders, conds=local, context=ctx, node=node, kind="remove", how=how))
+                out.removals.append(Contribution(elt=self.x(key), binders=binders, conds=local, context=ctx, node=node, kind="remove", how=how, acc=name))
             elif kind == "add":
-                out.contribs.append(Contribution(elt=self.x(key), value=self.x(value) if how in ("subscript-store", "subscript-load", "setdefault", "subscript-aug") else None, binders=binders, conds=local, context=ctx, node=node, how=how))
+                out.contribs.append(Contribution(elt=self.x(key), value=self.x(value) if how in ("subscript-store", "subscript-load", "setdefault", "subscript-aug") else None, binders=binders, conds=local, context=ctx, node=node, how=how, acc=name))
+            elif kind == "removemany":
+                sub = self._describe(key, depth - 1, busy)
+                for c in sub.contribs:
+                    out.removals.append(Contribution(c.elt, None, binders + c.binders, local + c.conds, ctx, node, "remove", "remove", acc=name))
+                out.unknown += sub.unknown
+                if sub.removals:
+                    out.unknown.append(f"`{norm(node, 60)}` removes a collection that is itself reduced")
             else:  # addmany: the elements of `key`
                 sub = self._describe(key, depth - 1, busy)
                 for c in sub.contribs:
-                    out.contribs.append(Contribution(c.elt, c.value, binders + c.binders, local + c.conds, ctx, node, "add", how + ":" + c.how))
+                    out.contribs.append(Contribution(c.elt, c.value, binders + c.binders, local + c.conds, ctx, node, "add", how + ":" + c.how, acc=name))
                 out.removals += sub.removals
                 out.unknown += sub.unknown
         return out
@@ -289,9 +324,23 @@ class Collections:
             return Desc(unknown=[f"`{norm(e, 60)}` nested too deeply"])
         if isinstance(e, ast.Name):
             defs = fn.reaching(e.id, e)
+            # an augmented assignment (acc += xs, acc -= xs) is an event on the value that reaches it, not a new value
+            seen_aug: set[int] = set()
+            while any(d.kind == "aug" for d in defs):
+                nxt = []
+                for d in defs:
+                    if d.kind == "aug":
+                        if id(d.stmt) not in seen_aug:
+                            seen_aug.add(id(d.stmt))
+                            nxt += fn.reaching_stmt(e.id, d.stmt)
+                    else:
+                        nxt.append(d)
+                uniq = {}
+                for d in nxt:
+                    uniq.setdefault(d.key(), d)
+                defs = list(uniq.values())
             out = Desc()
             init_stmts = [d.stmt for d in defs if d.stmt is not None and d.kind in ("assign",)]
-            plain = True
             for d in defs:
                 if d.kind == "param" or d.kind in ("for", "comp", "unpack", "with", "lambda", "free", "except", "other"):
                     out.extend(self._root(e))
@@ -437,15 +486,34 @@ class Collections:
         return self._root(e)
 
     def _describe_copy(self, e: ast.AST) -> Desc:
-        """Description of a detached (summarised) collection expression: comprehensions / literals only."""
+        """Description of a detached (expanded / summarised) collection expression."""
+        t = self.tree(e)
+        if t is not None:
+            return self._describe(t, 8, set())
         if isinstance(e, COMPS):
-            binders = [Binder(g.target, g.iter, e) for g in e.generators]
+            ctx, orig = self.fn.ctx_of(e)
+            loop = orig if ctx is self.fi and isinstance(orig, COMPS) else e  # identity of the comprehension it was copied from
+            binders = [Binder(g.target, g.iter, loop) for g in e.generators]
             cs = [(c, True) for g in e.generators for c in g.ifs]
             if isinstance(e, ast.DictComp):
                 return Desc([Contribution(e.key, e.value, binders, cs, node=e, how="comp")])
             return Desc([Contribution(e.elt, None, binders, cs, node=e, how="comp")])
         if isinstance(e, (ast.List, ast.Tuple, ast.Set)):
-            return Desc([Contribution(x, node=e, how="literal") for x in e.elts if not isinstance(x, ast.Starred)])
+            out = Desc()
+            for x in e.elts:
+                if isinstance(x, ast.Starred):
+                    out.extend(self._describe_copy(x.value))
+                else:
+                    out.contribs.append(Contribution(x, node=e, how="literal"))
+            return out
+        if isinstance(e, ast.BinOp) and isinstance(e.op, (ast.Add, ast.BitOr)):
+            out = self._describe_copy(e.left)
+            out.extend(self._describe_copy(e.right))
+            return out
+        if isinstance(e, ast.Call) and _call_name(e) in COPY_CALLS and len(e.args) == 1:
+            return self._describe_copy(e.args[0])
+        if isinstance(e, ast.Call) and _is_empty_value(e):
+            return Desc()
         return self._root(e)
 
     # ------------------------------------------------------------------ applying callables
@@ -495,6 +563,51 @@ class Collections:
             return None
         return substitute(copy_node(body[0].value, callee), dict(zip(ps, args)))
 
+    def tree(self, e: ast.AST) -> ast.AST | None:
+        """The node of the function's own tree that `e` is (or is an unchanged copy of a Name / copy-call of); None if detached."""
+        if parent(e) is not None:
+            return e
+        ctx, orig = self.fn.ctx_of(e)
+        if ctx is self.fi and parent(orig) is not None:
+            if isinstance(e, ast.Name) and isinstance(orig, ast.Name) and e.id == orig.id:
+                return orig
+            if isinstance(e, ast.Call) and isinstance(orig, ast.Call) and ast.unparse(e) == ast.unparse(orig) and not getattr(e, "_alias", ""):
+                # unchanged text: the copy denotes the same value if nothing inside was substituted by a different expression
+                return orig
+        return None
+
+    # ------------------------------------------------------------------ existential conditions
+    def exists_intro(self, d: Desc) -> Desc:
+        """`if <local collection>:` (truthiness of {e | binders, conds}) inside a contribution becomes these binders and
+        conditions: "added if some element exists" and "added for every element" describe the same set."""
+        out = Desc(removals=[], unknown=list(d.unknown))
+        for src, dst in ((d.contribs, out.contribs), (d.removals, out.removals)):
+            for c in src:
+                dst += self._exists(c, out)
+        return out
+
+    def _exists(self, c: Contribution, out: Desc) -> list[Contribution]:
+        lits = flatten(c.conds)
+        for i, (lit, pol) in enumerate(lits):
+            if not pol:
+                continue
+            sub = None
+            if isinstance(lit, (*COMPS, ast.Name)):
+                sub = self._describe_copy(lit)
+            if sub is None or sub.unknown or sub.removals or not sub.contribs or any(x.how == "root" for x in sub.contribs):
+                continue
+            rest = lits[:i] + lits[i + 1:]
+            have = {id(b.loop) for b in c.binders if b.loop is not None}
+            if all(x.binders and all(id(b.loop) in have for b in x.binders) for x in sub.contribs):
+                # the contribution already ranges over the elements of this very collection: non-emptiness is implied
+                return self._exists(Contribution(c.elt, c.value, c.binders, rest, c.context, c.node, c.kind, c.how, c.acc), out)
+            res = []
+            for x in sub.contribs:
+                nc = Contribution(c.elt, c.value, c.binders + x.binders, rest + x.conds, c.context, c.node, c.kind, c.how, c.acc)
+                res += self._exists(nc, out)
+            return res
+        return [c]
+
     # ------------------------------------------------------------------ normalisation
     def normalise(self, d: Desc, depth: int = 8) -> Desc:
         """Composes locally built sources away: afterwards every binder ranges over a root (also for removal events)."""
@@ -533,7 +646,7 @@ class Collections:
                 c.binders[idx] = Binder(b.target.elts[1], src.args[0], b.loop)
                 work.insert(0, c)
                 continue
-            sub = self._describe(src, depth, set()) if parent(src) is not None else self._root(src)
+            sub = self._describe_copy(src)
             if sub.unknown or sub.removals:
                 out.unknown += sub.unknown
                 out.removals += sub.removals
@@ -545,7 +658,7 @@ class Collections:
             for ci in sub.contribs:
                 if ci.how == "root":
                     rb = ci.binders[0]
-                    nc = Contribution(c.elt, c.value, c.binders[:idx] + [Binder(b.target, rb.source, b.loop, True)] + c.binders[idx + 1:], list(c.conds), c.context, c.node, c.kind, c.how, c.nlocal)
+                    nc = Contribution(c.elt, c.value, c.binders[:idx] + [Binder(b.target, rb.source, b.loop, True)] + c.binders[idx + 1:], list(c.conds), c.context, c.node, c.kind, c.how, c.acc, c.nlocal)
                     work.insert(0, nc)
                     continue
                 env = self._match_target(b.target, ci)
@@ -565,7 +678,7 @@ class Collections:
                     inner_binders.append(Binder(tnew, ib.source, ib.loop, ib.root))
                 # sources of later inner binders may mention earlier inner binder names
                 for k, ib in enumerate(inner_binders):
-                    if k:
+                    if k and any(isinstance(x, ast.Name) and x.id in ren for x in ast.walk(ib.source)):
                         ib.source = substitute(copy_node(ib.source, self.fi), ren)
                 env = {k: substitute(copy_node(v, self.fi), ren) for k, v in env.items()}
                 inner_conds = [(substitute(copy_node(x, self.fi), ren), p) for x, p in ci.conds]
@@ -582,6 +695,7 @@ class Collections:
                     c.node,
                     c.kind,
                     c.how,
+                    c.acc,
                     c.nlocal,
                 )
                 work.insert(0, nc)
